@@ -10,7 +10,7 @@ wt="$(realpath "$1")"; id="$2"; shift 2
 vh="$wt/.vh"
 mkdir -p "$vh/out"
 rsync -a --delete --exclude target --exclude fuzz/target /verif/harness/ "$vh/harness/"
-sed -i "s|/repo/|$wt/|g" "$vh/harness/Cargo.toml"
+sed -i "s|/repo/|$wt/|g" "$vh/harness/Cargo.toml" "$vh/harness/fuzz/Cargo.toml"
 cat > "$vh/harness/.cargo/config.toml" <<EOC
 [net]
 offline = true
@@ -22,7 +22,7 @@ cd "$vh/harness" || exit 2
 if ! CARGO_NET_OFFLINE=true cargo build --offline --bin "$bin" >"$vh/build.log" 2>&1; then
 	echo "MACHINERY-ERROR build failed (see $vh/build.log)" >&2; tail -30 "$vh/build.log" >&2; exit 2
 fi
-export VERIF_OUT="$vh/out" VERIF_REPO="$wt" VERIF_BIN_TARGET="$vh/target-bin" RUST_BACKTRACE=0 RUST_LIB_BACKTRACE=0
+export VERIF_HARNESS_DIR="$vh/harness" VERIF_OUT="$vh/out" VERIF_REPO="$wt" VERIF_BIN_TARGET="$vh/target-bin" RUST_BACKTRACE=0 RUST_LIB_BACKTRACE=0
 "$vh/target/debug/$bin" "$@"
 rc=$?
 if [ $rc -ge 128 ]; then
